@@ -981,7 +981,8 @@ func (e *enc) binop(x *ssa.BinOp) {
 			}
 			t0 = "(= (i-tag " + o.T + ") 0)"
 		case a.S == "Iface":
-			// comparing interfaces holding uncomparable dynamic types panics; not modelled: compare identity
+			// comparing two interfaces that hold the same uncomparable dynamic type panics
+			e.safety("iface-compare", or("(not (= (i-tag "+a.T+") (i-tag "+b.T+")))", "(= (i-tag "+a.T+") 0)", "(comparableTag (i-tag "+a.T+"))"), x.Pos())
 			t0 = eq(a.T, b.T)
 		default:
 			if a.S != b.S {
@@ -1257,6 +1258,9 @@ func (e *enc) mapUpdate(x *ssa.MapUpdate) {
 	k := e.val(x.Key)
 	v := e.val(x.Value)
 	mt := x.Map.Type().Underlying().(*types.Map)
+	if k.S == "Iface" {
+		e.safety("map-key-hashable", or("(= (i-tag "+k.T+") 0)", "(comparableTag (i-tag "+k.T+"))"), x.Pos())
+	}
 	dom, val, ln, _, _ := e.mapNames(mt)
 	e.safety("nil-map-write", "(not (= "+m.T+" 0))", x.Pos())
 	had := sel(e.get(dom), m.T, k.T)
@@ -1272,6 +1276,9 @@ func (e *enc) lookup(x *ssa.Lookup) {
 	m := e.val(x.X)
 	k := e.val(x.Index)
 	if mt, ok := x.X.Type().Underlying().(*types.Map); ok {
+		if k.S == "Iface" {
+			e.safety("map-key-hashable", or("(= (i-tag "+k.T+") 0)", "(comparableTag (i-tag "+k.T+"))"), x.Pos())
+		}
 		dom, val, _, _, vs := e.mapNames(mt)
 		has := and("(not (= "+m.T+" 0))", sel(e.get(dom), m.T, k.T))
 		got := ite(has, sel(e.get(val), m.T, k.T), e.te.Zero(mt.Elem()))
